@@ -66,6 +66,10 @@ def clause_props(name):
         out |= {'C01', 'C05'}
     if unit in ('BGP._update_received',):
         out |= {'C01', 'C10'}
+    if '/post:Inv/' in name and not any(x in name for x in ('C12-', 'C13-', 'C02-')):
+        out |= {'C10'}            # C10 (f): the agent is left in a clean state after any input
+    if 'Inv/state-range' in name:
+        out |= {'C01', 'C02'}     # C02: the FSM is never left in a state no handler gets it out of
     if not out:
         out = {'C01'}
     return out
